@@ -40,7 +40,19 @@ WORKLOADS = {
     "buffer1": ("MC_Sched_2x5", {"w1": [{"k": "ins", "kg": "g", "rel": "r", "tuples": [t(1)]}],
                                  "w2": [{"k": "ins", "kg": "g", "rel": "r", "tuples": [t(2)]}]}, [],
                 {"buffer_size": 1, "max_wal": 0, "durability": "immediate"}, ("C15",)),
-    # a reader against a multi-tuple writer and its own earlier write
+    # a flush / compaction / buffer-fill flush of ANOTHER shard (the WAL is shared by all shards and is
+    # rewritten by every flush) while writers are between their WAL append and their acknowledgement
+    "flush_other": ("MC_Sched_F55", {"F": [{"k": "save", "kg": "h"}],
+                                     "w1": [{"k": "ins", "kg": "g", "rel": "r", "tuples": [t(1)]}],
+                                     "w2": [{"k": "ins", "kg": "g", "rel": "q", "tuples": [t(2)]}]},
+                    [{"k": "create", "kg": "h"}, {"k": "ins", "kg": "h", "rel": "s", "tuples": [t(9)]}], CFG, ("C15",)),
+    "compact_other": ("MC_Sched_C", {"F": [{"k": "compact"}],
+                                     "w1": [{"k": "ins", "kg": "g", "rel": "r", "tuples": [t(1)]}]},
+                      [{"k": "create", "kg": "h"}, {"k": "ins", "kg": "h", "rel": "s", "tuples": [t(9)]}], CFG, ("C15",)),
+    "fill_other": ("MC_Sched_W6", {"w1": [{"k": "ins", "kg": "g", "rel": "r", "tuples": [t(1)]}],
+                                   "w2": [{"k": "ins", "kg": "h", "rel": "s", "tuples": [t(8)]}]},
+                   [{"k": "create", "kg": "h"}, {"k": "ins", "kg": "h", "rel": "s", "tuples": [t(9)]}],
+                   {"buffer_size": 2, "max_wal": 0, "durability": "immediate"}, ("C15",)),
     # incremental maintenance on: a consistent reader of the incremental engine against two writers
     # (a writer that took its logical time early may apply its shadow write after the reader advanced the frontier)
     "incr_reader": ("MC_Sched_R", {"a": [{"k": "ins", "kg": "g", "rel": "r", "tuples": [t(1)]}],
@@ -71,7 +83,7 @@ def run(prop, replay=None):
     vlib.build_harness()
     rng = random.Random(vlib.seed() * 15485863 + int(prop[1:]))
     cases = []
-    budget = int(os.environ.get("VERIF_N", {"quick": 260, "thorough": 6000}[tier]))
+    budget = int(os.environ.get("VERIF_N", {"quick": 420 if prop == "C15" else 260, "thorough": 6000}[tier]))
     exhaustive = {}
     if replay:
         with open(replay) as f:
@@ -130,7 +142,7 @@ def run(prop, replay=None):
         o = os.path.join(wd, f"rec{ci}.ndjson")
         with open(lst, "w") as f:
             f.write("\n".join(d for d, _ in ch) + "\n")
-        vlib.ilv(["recover", "--list", lst, "--known", json.dumps({"g": {"r": 2}, "h": {"r": 2}}), "--cfg", json.dumps(CFG),
+        vlib.ilv(["recover", "--list", lst, "--known", json.dumps({"g": {"r": 2, "q": 2}, "h": {"r": 2, "s": 2}}), "--cfg", json.dumps(CFG),
                   "--out", o], timeout=3600)
         for line in open(o):
             x = json.loads(line)
